@@ -21,6 +21,7 @@ type readSite struct {
 	In     ssa.Instruction
 	Callee string
 	InLoop bool
+	Pure   bool // the callee reads without sending anything first
 }
 
 func deviceReadSites(p *Prog) []readSite {
@@ -48,12 +49,36 @@ func deviceReadSites(p *Prog) []readSite {
 			}
 		}
 	}
+	// ... and those that send (reach GExpect.Send)
+	senders := map[*ssa.Function]bool{}
+	for changed := true; changed; {
+		changed = false
+		for _, fn := range allModFuncs(p) {
+			if senders[fn] || pkgOfFunc(fn) != "console" {
+				continue
+			}
+			for _, cs := range callsOf(fn) {
+				hit := strings.HasPrefix(cs.calleeName(), "(*github.com/tailscale/goexpect.GExpect).Send")
+				for _, cal := range calleesOfSite(p, cs) {
+					if senders[cal] {
+						hit = true
+					}
+				}
+				if hit {
+					senders[fn] = true
+					changed = true
+					break
+				}
+			}
+		}
+	}
 	for _, fn := range allModFuncs(p) {
 		if fn.Synthetic != "" {
 			continue
 		}
 		for _, cs := range callsOf(fn) {
 			name := cs.calleeName()
+			pure := true
 			if strings.HasPrefix(name, "(*github.com/tailscale/goexpect.GExpect).Expect") {
 				name = strings.TrimPrefix(name, "(*github.com/tailscale/goexpect.GExpect).")
 			} else {
@@ -62,6 +87,7 @@ func deviceReadSites(p *Prog) []readSite {
 					if readers[cal] {
 						hit = true
 						name = shortName(cal)
+						pure = !senders[cal]
 					}
 				}
 				if !hit {
@@ -69,7 +95,7 @@ func deviceReadSites(p *Prog) []readSite {
 				}
 			}
 			b := cs.In.Block()
-			out = append(out, readSite{fn, cs.In, name, blockReaches(b, b)})
+			out = append(out, readSite{fn, cs.In, name, blockReaches(b, b), pure})
 		}
 	}
 	sort.Slice(out, func(i, j int) bool {
@@ -82,7 +108,7 @@ func deviceReadSites(p *Prog) []readSite {
 }
 
 func ruleDeviceReadsAudited(p *Prog, r *Report, rule string) {
-	r.rule(rule, "The dialogue is one command, one answer: for every call of GExpect.Expect / ExpectBatch and of the functions of package console that reach them (waitPrompt, GetOutput, IssueCmd, TryPrompt, ...) the call stands outside every loop, except the audited ones (tables/read_loops.tsv: function, callee, yes, reason). A read that newly stands in a loop takes further answers that belong to commands already sent (the second half of a joined change): their own check then times out, the run ends as failed without saving although the device accepted everything.")
+	r.rule(rule, "The dialogue is one command, one answer: for every call of GExpect.Expect / ExpectBatch and of the functions of package console that reach them (waitPrompt, GetOutput, IssueCmd, TryPrompt, ...) the call stands outside every loop, except the audited ones (tables/read_loops.tsv: function, callee, yes, reason). A read that newly stands in a loop takes further answers that belong to commands already sent (the second half of a joined change): their own check then times out, the run ends as failed without saving although the device accepted everything. Reads that do not send a command first (GetOutput behind a Send of the caller, WaitLogin, the polls TryPrompt / WaitShort) are allowed at the audited call sites only (tables/pure_reads.tsv): a drain in front of a command swallows an error message of the previous command.")
 	want := map[string]string{}
 	why := map[string]string{}
 	for _, row := range readTable("read_loops.tsv", 4) {
@@ -107,6 +133,28 @@ func ruleDeviceReadsAudited(p *Prog, r *Report, rule string) {
 		r.add(rule, "read|"+k+"|loop="+loop, p.ipos(s.In), fmt.Sprintf("%s in %s: in a loop: %s (audited loops: %q %s)", s.Callee, fnDisplay(s.Fn), loop, w, why[k]), ok,
 			"this read of the device's output stands in a loop that was not audited: it can consume the answers to commands that were sent together with the current one")
 	}
+	// reads that are not the answer to a command sent by the same call (polls, drains)
+	allowed := map[string]string{}
+	for _, row := range readTable("pure_reads.tsv", 3) {
+		allowed[row[0]+"|"+row[1]] = row[2]
+	}
+	np := 0
+	seenP := map[string]bool{}
+	for _, s := range deviceReadSites(p) {
+		if !s.Pure || pkgOfFunc(s.Fn) == "console" {
+			continue
+		}
+		k := fnDisplay(s.Fn) + "|" + s.Callee
+		np++
+		if seenP[k] {
+			continue
+		}
+		seenP[k] = true
+		why, ok := allowed[k]
+		r.add(rule, "pure-read|"+k, p.ipos(s.In), fmt.Sprintf("%s reads device output without sending a command first; audited: %q", fnDisplay(s.Fn), why), ok,
+			"a read that is not the answer to a command of its own takes whatever the device has printed meanwhile -- an error message that belongs to the previous command is logged and dropped instead of failing the echo check of the next command")
+	}
+	r.floor(rule, "reads without a command of their own, outside package console", np, 5)
 	r.floor(rule, "reads of device output", n, 40)
 }
 
